@@ -290,6 +290,7 @@ def run(ctx, selftest=False):
         if nmp < 6:
             raise core.MachineryError("worker-process faults: only %d fired" % nmp)
     ctx.notes["crash_points_injected"] = sum(1 for t in traces if t["injected"])
+    ctx.notes["crash_points_outside_the_models_action_list"] = sum(1 for t in traces if t["injected"] and not t["modelpoint"])
     ctx.notes["dynamic_call_sequence_sample"] = [t["seq"] for t in traces if not t["injected"]][:2]
     ctx.sample({k: v for k, v in traces[1].items()})
     ctx.sample({k: v for k, v in traces[-1].items()})
